@@ -206,6 +206,11 @@ impl<'tcx> Cx<'tcx> {
             if !feats.is_empty() {
                 v.push(("tf", J::Arr(feats)));
             }
+            if matches!(tcx.def_kind(d), DefKind::Fn | DefKind::AssocFn) {
+                if tcx.fn_sig(d).skip_binder().skip_binder().safety().is_unsafe() {
+                    v.push(("us", J::Bool(true)));
+                }
+            }
             return o(v);
         }
         let tid = self.ty_id(t);
@@ -215,8 +220,8 @@ impl<'tcx> Cx<'tcx> {
                 v.push(("k", J::s("unev")));
                 v.push(("p", J::s(self.dname(u.def))));
                 v.push(("a", self.args_json(u.args)));
-                if u.promoted.is_some() {
-                    v.push(("promoted", J::Bool(true)));
+                if let Some(pi) = u.promoted {
+                    v.push(("promoted", J::n(pi.as_usize())));
                 }
             }
             _ => v.push(("k", J::s("val"))),
@@ -556,6 +561,15 @@ impl<'tcx> Cx<'tcx> {
         v.push(("names", J::Arr(names)));
         let blocks: Vec<J> = body.basic_blocks.iter().map(|bb| self.block_j(bb, env)).collect();
         v.push(("blocks", J::Arr(blocks)));
+        // promoted constants (`&0`, `&mut []`, ...) as miniature bodies
+        let mut proms = Vec::new();
+        for pb in tcx.promoted_mir(d).iter() {
+            self.cur = Some(&pb.local_decls);
+            let pl: Vec<J> = pb.local_decls.iter().map(|l| J::n(self.ty_id(l.ty))).collect();
+            let pbl: Vec<J> = pb.basic_blocks.iter().map(|bb| self.block_j(bb, env)).collect();
+            proms.push(o(vec![("locals", J::Arr(pl)), ("blocks", J::Arr(pbl))]));
+        }
+        v.push(("promoted", J::Arr(proms)));
         self.cur = None;
         o(v)
     }
